@@ -701,7 +701,14 @@ def stampFloat (P : Params) (s n : Int) : PyM Nat :=
 without it they read `x.sec`, which a float does not have.  When `float(ts)` overflows, the `except OverflowError`
 fallback (`tsOverflowFallback`) compares `ts.sec` with `x` (int against float: exact, never raises) -/
 def tsGt (P : Params) : OTs → OTs → PyM Bool
-  | .stamp s1 n1, .stamp s2 n2 => .ok (if s1 = s2 then decide (n1 > n2) else decide (s1 > s2))
+  | .stamp s1 n1, .stamp s2 n2 =>
+    if tsCompareViaFloat then
+      -- variant `float(self) > float(other)`: nanoseconds beyond float precision are lost; when a conversion
+      -- overflows, the fallback `self.sec > other` ends (through the reflected method) in comparing the seconds
+      match P.tsFloat s1 n1, P.tsFloat s2 n2 with
+      | some f1, some f2 => .ok (P.lt (.flt f2) (.flt f1))
+      | _, _ => .ok (decide (s2 < s1))
+    else .ok (if s1 = s2 then decide (n1 > n2) else decide (s1 > s2))
   | .stamp s n, .flt b =>
     if tsCoerce then
       match P.tsFloat s n with
